@@ -474,9 +474,19 @@ static void sample_queries(char *out, size_t n)
         snprintf(out, n, "%d,%d,%d,%d,%d", b, h, f, pc, pu);
 }
 
+static unsigned long cksum(const uint8_t *p, size_t n)
+{
+        unsigned long h = 7; size_t i;
+        for (i = 0; i < n; i++) h = (h * 131UL + p[i]) % 4294967291UL;
+        return h;
+}
+
 static void emit(const char *opno, long ret)
 {
         int i; char q[96]; size_t k;
+        size_t ccap = ubuf ? buf_size : buf_size >> 1;
+        size_t ucap = ubuf ? (size_t)uns_size : buf_size >> 1;
+        const uint8_t *up = ubuf ? ubuf : wbuf + (buf_size >> 1);
         printf("%s ret=%ld ev=%s m=", opno, ret, evlen ? evbuf : "");
         for (i = 0; i < nslots; i++) {
                 if (slots[i].len && memcmp(slots[i].data, slots[i].snap, slots[i].len) != 0) {
@@ -487,7 +497,7 @@ static void emit(const char *opno, long ret)
                 }
         }
         sample_queries(q, sizeof(q));
-        printf(" q=%s st=%d,%d\n", q, (int)obj.state, (int)obj.unsolicited_fsm.state);
+        printf(" q=%s b=%lu,%lu st=%d,%d,%zu\n", q, cksum(wbuf, ccap), cksum(up, ucap), (int)obj.state, (int)obj.unsolicited_fsm.state, obj.unsolicited_fsm.unsolicited_cmd_buffer_items_count);
         fflush(stdout);
         evlen = 0; if (evbuf) evbuf[0] = 0;
 }
